@@ -142,7 +142,12 @@ func check(it *proto.Item, r *proto.Result) []proto.Issue {
 	return out
 }
 
-var F = &proto.Family{ID: "C10", Gen: gen}
+var F = &proto.Family{ID: "C10", Gen: gen, Bound: func(tier string) int {
+	if tier == "thorough" {
+		return 2
+	}
+	return 1
+}}
 
 func init() {
 	F.Check = check
